@@ -7,6 +7,7 @@ import (
 	"fmt"
 	"go/token"
 	"go/types"
+	"math"
 	"math/big"
 	"runtime"
 	"strconv"
@@ -48,6 +49,69 @@ func (e *Engine) installExternals() {
 		e.mutexUnlock(fr.g, p)
 		return nil
 	}
+
+	// ---- sync.Map (modelled as a mutex-protected insertion-ordered map)
+	smap := func(p *Value) *Map {
+		m := e.syncMaps[p]
+		if m == nil {
+			m = newMap(anyType)
+			e.syncMaps[p] = m
+		}
+		return m
+	}
+	x["(*sync.Map).Load"] = func(fr *frame, a []Value) Value {
+		p := a[0].(*Value)
+		e.mutexLock(fr.g, p)
+		v, ok := smap(p).lookup(e, a[1])
+		e.mutexUnlock(fr.g, p)
+		if !ok {
+			return Tuple{Iface{}, false}
+		}
+		return Tuple{v, true}
+	}
+	x["(*sync.Map).Store"] = func(fr *frame, a []Value) Value {
+		p := a[0].(*Value)
+		e.mutexLock(fr.g, p)
+		smap(p).insert(e, a[1], a[2])
+		e.mutexUnlock(fr.g, p)
+		return nil
+	}
+	x["(*sync.Map).LoadOrStore"] = func(fr *frame, a []Value) Value {
+		p := a[0].(*Value)
+		e.mutexLock(fr.g, p)
+		defer e.mutexUnlock(fr.g, p)
+		if v, ok := smap(p).lookup(e, a[1]); ok {
+			return Tuple{v, true}
+		}
+		smap(p).insert(e, a[1], a[2])
+		return Tuple{a[2], false}
+	}
+	x["(*sync.Map).Delete"] = func(fr *frame, a []Value) Value {
+		p := a[0].(*Value)
+		e.mutexLock(fr.g, p)
+		smap(p).delete(e, a[1])
+		e.mutexUnlock(fr.g, p)
+		return nil
+	}
+	x["(*sync.Map).Range"] = func(fr *frame, a []Value) Value {
+		p := a[0].(*Value)
+		for _, h := range smap(p).liveKeys() {
+			en := h.(*mapEntry)
+			if en.dead {
+				continue
+			}
+			if !e.branch(e.call(fr, token.NoPos, a[1], []Value{en.k, en.v})) {
+				break
+			}
+		}
+		return nil
+	}
+
+	// ---- math
+	x["math.NaN"] = func(fr *frame, a []Value) Value { return math.NaN() }
+	x["math.Inf"] = func(fr *frame, a []Value) Value { return math.Inf(int(a[0].(int64))) }
+	x["math.IsNaN"] = func(fr *frame, a []Value) Value { f := a[0].(float64); return f != f }
+	x["math.IsInf"] = func(fr *frame, a []Value) Value { return math.IsInf(a[0].(float64), int(a[1].(int64))) }
 
 	// ---- sync/atomic (function forms)
 	cas := func(fr *frame, a []Value) Value {
